@@ -7,16 +7,24 @@ Legs:  M  TLC explores VTModel (a transcription of vt.go + a cell-level console)
        G  the operation sequences TLC wrote while exploring are replayed on the real tty.VT attached to the
           recording console (C17) / recording console + real VgaTextConsole + real VesaFbConsole (C18).
        T  seeded random streams at real scale (80x25+80, 1-column, 1-row, scrollback 0, tab 0/1/8/255).
-       V  every recorded event is judged by TLC with VTTrace (the same operators as leg M)."""
+       H  (C18) the real hal links console and real terminal (onDriverInit, both driver orders, later consoles /
+          terminals) over consoles holding garbage; output through the kfmt sink and hal.ActiveTTY().
+       V  every recorded event is judged by TLC with VTTrace (the same operators as leg M).
+The cases of G and T run in a child process with a CPU-time watchdog: a call that does not return is logged as
+res=hang and judged by the monitor (every terminal call returns)."""
 import json, os, threading
 import vlib
 
 H17 = ["tty/c17_vt_trace_test.go"]
-H18 = ["tty/c17_vt_trace_test.go", "tty/c18_consoles_test.go"]
-SHIM = {"kernel/device/video/console/zz_verif_c18_shim.go": "tty/c18_console_shim.go"}
+# overlay-only non-test files: the shared screen projection (package tty), the real consoles over host memory
+# (package tty) and the export of the two hardware seams (package console)
+SHIM17 = {"kernel/device/tty/zz_verif_c17_screen_shim.go": "tty/c17_screen_shim.go"}
+SHIM18 = dict(SHIM17, **{"kernel/device/tty/zz_verif_c18_consoles_shim.go": "tty/c18_consoles_shim.go",
+                         "kernel/device/video/console/zz_verif_c18_shim.go": "tty/c18_console_shim.go"})
+HAL18 = ["hal/c18h_link_test.go"]
 
 BUGS = {"C17": ["ScrollExtraRow", "VyNoOffUpdate", "WrapAtGE", "BsCol1Up", "TabNoWrap", "ClipTermHeight"],
-        "C18": ["NoFillAfterScroll", "RedrawIgnoresVy", "RedrawCursorY", "MirrorInactive"]}
+        "C18": ["ActiveAtAttach", "NoFillAfterScroll", "RedrawIgnoresVy", "RedrawCursorY", "MirrorInactive"]}
 
 ASSUME = {
     "C17": [
@@ -33,13 +41,13 @@ ASSUME = {
         "outside the grid = guard bytes directly before / after the mapped frame buffer, the logo rows and the padding bytes after every pixel row; partial cells right of / below the grid are not compared (Scroll moves whole visible rows)",
         "the consoles are built through exported API only (New*, DriverInit, SetLogo, SetFont); the overlay shim harness/tty/c18_console_shim.go binds the two hardware seams (mapRegionFn, portWriteByteFn) to host memory, as the repository's own console tests do",
         "SetState(inactive) itself is not constrained (the statement speaks about writes while active / inactive and about activation)",
-        "terminals are attached while inactive and activated afterwards (the order hal.linkTTYToConsole uses); between checkpoints of big screens only the calls, the call count and the bytes outside the grid are judged",
+        "legs G and T attach the terminal while inactive and activate it afterwards; the order the kernel really uses is observed in leg H (the real hal.onDriverInit / linkTTYToConsole driving recorder-wrapped real VTs; the monitor follows SetState calls made before AttachTo); between checkpoints of big screens only the calls, the call count and the bytes outside the grid are judged",
     ],
 }
 
 
 def _harness(prop):
-    return (H17, None) if prop == "C17" else (H18, SHIM)
+    return (H17, SHIM17) if prop == "C17" else (H17, SHIM18)
 
 
 def _kinds(prop):
@@ -70,8 +78,12 @@ def _go(ctx, prop, test, env, timeout):
     env = dict(env, VERIF_LEG=env.get("VERIF_LEG", "G" if test.endswith("Cases") else "T"))
     rc, out, wall = ctx.gotest("kernel", "device/tty", files, test, env=env, timeout=timeout, extra_files=extra)
     tr = env.get("TRACE_OUT")
-    if rc != 0 or not os.path.exists(tr) or os.path.getsize(tr) == 0:
+    if rc != 0 or not os.path.exists(tr + ".status") or os.path.getsize(tr) == 0:
         raise vlib.Broken("tty harness %s failed:\n%s" % (test, out[-3000:]))
+    with open(tr + ".status") as f:
+        st = json.load(f)
+    if st.get("hangs"):
+        ctx.note("%s: %d call(s) of the code under test did not return within the CPU budget (logged as res=hang)" % (test, st["hangs"]))
     return wall
 
 
@@ -98,6 +110,15 @@ def _split(path, max_events):
     if out is not None:
         out.close()
     return parts
+
+
+def _go_hal(ctx, env, timeout):
+    """C18 hal leg: the real hal links console and terminal (package hal harness + the tty / console shims)."""
+    rc, out, wall = ctx.gotest("kernel", "hal", HAL18, "TestVerifC18HalLink", env=env, timeout=timeout, extra_files=SHIM18)
+    tr = env.get("TRACE_OUT")
+    if rc != 0 or not os.path.exists(tr + ".status") or os.path.getsize(tr) == 0:
+        raise vlib.Broken("hal link harness failed:\n%s" % out[-3000:])
+    return wall
 
 
 def _judge(ctx, prop, name, paths, parallel, timeout):
@@ -177,11 +198,20 @@ def run_tty(ctx, prop):
     # design mutants: tiny runs (TLC stops at the first rejected state), in their own thread
     def mutants():
         try:
-            for b in (BUGS[prop][:2] if q else BUGS[prop]):
+            for b in (BUGS[prop][:3 if prop == "C18" else 2] if q else BUGS[prop]):
                 ctx.expect_model_violation(d, "MCVT", "MCVTBug_" + b, workers=2, timeout=600)
         except Exception as e:
             terr.append(e)
+    tr_h = os.path.join(ctx.work, "trace_h.ndjson")
+
+    def record_h():
+        try:
+            _go_hal(ctx, {"TRACE_OUT": tr_h, "NTRACES": 36 if q else 600}, 900)
+        except Exception as e:
+            terr.append(e)
     ths = [threading.Thread(target=record_t), threading.Thread(target=mutants)]
+    if prop == "C18":
+        ths.append(threading.Thread(target=record_h))
     for th in ths:
         th.start()
 
@@ -221,11 +251,14 @@ def run_tty(ctx, prop):
     ctx.cov["legs"]["emit"] = {"case_lines_from_tlc": ncase_lines}
 
     # ---- leg V
+    extra = [tr_h] if prop == "C18" else []
     if q:
-        _judge(ctx, prop, "G+T", [tr_g, tr_t], 5, 2400)
+        _judge(ctx, prop, "G+T" + ("+H" if extra else ""), [tr_g, tr_t] + extra, 5, 2400)
     else:
         _judge(ctx, prop, "G-cases", tr_g, 16, 2400)
         _judge(ctx, prop, "T-random", tr_t, 16, 2400)
+        if extra:
+            _judge(ctx, prop, "H-hal-link", tr_h, 16, 2400)
     ctx.cov["exhaustive"] = (not q) and not ctx.violations
     ctx.cov["explanation"] = (
         "thorough: for every distinct (state, depth) TLC found within 2 operations in each of the 81 geometries, every "
@@ -244,7 +277,10 @@ def replay_tty(ctx, prop, path):
     with open(cf, "w") as f:
         f.write(json.dumps(rep) + "\n")
     tr = os.path.join(ctx.work, "trace_replay.ndjson")
-    _go(ctx, prop, "TestVerifC17Cases", {"CASES": cf, "TRACE_OUT": tr, "VERIF_TTY_CONS": _kinds(prop)}, 600)
+    if rep.get("hal"):
+        _go_hal(ctx, {"CASES": cf, "TRACE_OUT": tr}, 600)
+    else:
+        _go(ctx, prop, "TestVerifC17Cases", {"CASES": cf, "TRACE_OUT": tr, "VERIF_TTY_CONS": _kinds(prop)}, 600)
     _judge(ctx, prop, "replay", tr, 1, 900)
     ctx.cov["states"] = max(ctx.cov["states"], 1)
     ctx.cov["transitions"] = max(ctx.cov["transitions"], 1)
